@@ -533,7 +533,7 @@ pub fn gen_clientread(ctx: &crate::Ctx) {
     let mut rng = Rng::new(ctx.seed, "clientread");
     let mut out = Out::new(&ctx.dir, "clientread");
     out.rule = "response messages (valid heads with content-length / chunked / EOF-delimited bodies, mutated and truncated heads) written to khttp::Client over loopback TCP: one segment, \
-                every split point of the head (heads <= 64 bytes) or 6 random ones, 2 random multi-splits; the peer closes after the last segment. non-trivial = head accepted or rejected".into();
+                every split point of the head (heads <= 64 bytes) or 6 random ones, 2 random multi-splits, one message in six byte by byte; the peer closes after the last segment. non-trivial = head accepted or rejected".into();
     let n = if ctx.thorough { 1500 } else { 150 };
     for i in 0..n {
         let body: Vec<u8> = (0..rng.below(20)).map(|_| b'a' + rng.below(26) as u8).collect();
@@ -562,6 +562,9 @@ pub fn gen_clientread(ctx: &crate::Ctx) {
             cs.sort(); cs.dedup();
             segs.push(cs.iter().map(|c| c.to_string()).collect::<Vec<_>>().join(","));
         }
+        // one message in six is also delivered one byte at a time (heads of 65..400 bytes then need more than 64 reads: seed
+        // C03-j gave up after 64)
+        if rng.chance(1, 6) && b.len() >= 4 && b.len() <= 400 { segs.push((1..b.len()).map(|c| c.to_string()).collect::<Vec<_>>().join(",")); }
         let case = format!("{} {}", hex(&b), segs.join("|"));
         let r = run_clientread(&case);
         let first = r.split('#').next().unwrap_or("").to_string();
